@@ -269,6 +269,11 @@ def run(c, chk):
     # R10.7: a call of the wrong type can only be refused where the type is tested
     c09.typed_members(c, chk, 'R10.7')
     index_bound(c, chk)
+    from . import c14
+    chk.rule('R10.9', 'the pre-set validation callback judges the very value that would be stored (rule R14.5 of C14): a veto based on anything else does not protect the option')
+    sub = report.SubCheck(chk, 'R10.9', 'C14', only=('R14.5',))
+    c14.run(c, sub)
+    sub.done('pre-set validator')
 
 
 def index_bound(c, chk):
